@@ -305,7 +305,7 @@ func (s pyString) Operator(operator Operator, operand pyObject) pyObject {
 			// Another one: "%d" % 4
 			return pyString(fmt.Sprintf(string(s), i))
 		}
-		l, ok := operand.(pyList)
+		l, ok := asList(operand)
 		if !ok {
 			panic("Argument to string interpolation must be a string or list; was " + operand.Type())
 		}
@@ -371,7 +371,7 @@ func (l pyList) Operator(operator Operator, operand pyObject) pyObject {
 		return l[pyIndex(l, operand, false)]
 	case LessThan:
 		// Needed for sorting.
-		l2, ok := operand.(pyList)
+		l2, ok := asList(operand)
 		if !ok {
 			panic("Cannot compare list and " + operand.Type())
 		}
